@@ -103,11 +103,3 @@ Proof.
   rewrite known_refines. reflexivity.
 Qed.
 
-(* the spelling of LIMIT: plain decimal digits iff the number is below 2^32 (for the takes the resolver lets through) *)
-Theorem limit_plain_iff uf bare nsort dist proj rs c z : Forall valid rs ->
-  select_limit uf bare nsort dist proj (map lit rs) = Ret c -> k_limit c = Some (LNum z) ->
-  (lim_long z = false <-> z < 4294967296).
-Proof.
-  intros V H K. destruct (select_limit_nonneg uf bare nsort dist proj rs c V H) as (Hl & _ & _).
-  specialize (Hl z K). unfold lim_long. rewrite orb_false_iff, Z.ltb_ge, Z.leb_gt. lia.
-Qed.
